@@ -492,3 +492,7 @@ for _f, _id in ((pdom_register, "C03.PDOM-register"), (data_scope, "C03.DATA-sco
 dtab_scope.rule_id = "C03.DTAB-scope"
 
 RULES = [pdom_register, data_scope, dom_lhs_change, dtab_invalid, guard_bypass, can_recompute, dtab_scope, dom_invalid_last]
+
+# control signature of the bookkeeping effects this property depends on (rules/ctrlsig.py)
+from .ctrlsig import make_rule as _ctrl_rule  # noqa: E402
+RULES.append(_ctrl_rule("C03"))
